@@ -408,6 +408,12 @@ reg("np.lib.stride_tricks.sliding_window_view", "np.lib.stride_tricks.sliding_wi
 reg("np.emath.sqrt", "np.emath.sqrt(pos)", "np.emath.power(pos, 2)")
 reg("np.require", "np.require(M.T, requirements='C') #K", "np.require(a, dtype=None, requirements=['A', 'O']) #K")
 reg("np.asfortranarray", "np.asfortranarray(M) #N#X")
+# odd-length axes for the fft shifts (fftshift and ifftshift coincide on even lengths), deeper nesting for the block/stack family
+reg("np.fft.fftshift", "np.fft.fftshift(u3) #K", "np.fft.ifftshift(u3) #K", "np.fft.ifftshift(S) #K", "np.fft.ifftshift(S, axes=0) #K", "np.fft.fftshift(a[:5]) #K", "np.fft.ifftshift(a[:5]) #K",
+    "np.fft.ifftshift(np.fft.fftshift(a[:5])) #K", "np.fft.ifftshift(T4[:, :, :3], axes=(1, 2)) #K")
+reg("np.block", "np.block([[[a], [a2]], [[a2], [a]]]) #K", "np.block([[M, M2], [M2, M]]) #K", "np.block([[[u3]], [[u3]]]) #K", "np.block([[[[a]]]]) #K", "np.block([[a, a2]]) #K")
+reg("nested-list-args", "np.concatenate([[a, a2], [a2, a]]) #K", "np.stack([[a, a2], [a2, a]]) #K", "np.vstack([[a], [a2]]) #K", "np.hstack([[a, a2], [a2, a]]) #K", "np.concatenate([[[a, a2]], [[a2, a]]], axis=1) #K",
+    "np.concatenate(([a, a], [a2, a2]), axis=0) #K")
 # tuples of axes (some left standing), nested per-axis fill values, bare-first comparisons near the tolerance boundary
 reg("methods", "T4.prod(axis=(0, 1))", "T4.prod(axis=(-1,))", "T4.sum(axis=(0, 2)) #K", "T4.var(axis=(1, 2))", "T4.std(axis=(0, 1)) #K", "T4.max(axis=(0, 2)) #K", "T4.mean(axis=(-1,)) #K",
     "T4.min(axis=(1,)) #K", "T4.ptp(axis=(0, 1)) #K" if hasattr(np.ndarray, "ptp") else "T4.sum(axis=(1,)) #K")
